@@ -71,6 +71,12 @@ class Oracles:
 
     # ------------------------------------------------------------------------------------------------
     def fail(self, prop, oracle, sig, detail):
+        # a scenario may re-attribute an oracle family to the property it decides (e.g. C09 uses the
+        # counter / tally recounts as its "never double-counts" oracle): alias = {'C01': 'C09', ...}
+        alias = getattr(self, 'alias', None)
+        if alias and prop in alias and prop not in self.props:
+            sig = f'{alias[prop]}/{sig}'
+            prop = alias[prop]
         if self.pending is None and prop in self.props:
             self.pending = Violation(prop, oracle, sig, detail)
             self.ctx.log.add('oracle', 'violation', sig)
